@@ -638,47 +638,146 @@ func ordFacts(fs factSet) []ordFact {
 	return out
 }
 
-// bprover proves one-sided integer orderings inside one function from must-facts, phi edges and
-// the builtins min/max. It never evaluates anything.
-type bprover struct {
-	ff *FuncFacts
+// bframe is one activation in the prover's view: the root function, or a repository callee entered
+// from a call site of the frame above (so that parameters can be replaced by that call's arguments).
+type bframe struct {
+	fn   *ssa.Function
+	ff   *FuncFacts
+	call ssa.CallInstruction // call site in up (nil for the root)
+	up   *bframe
 }
 
-func (bp *bprover) key(v ssa.Value) string { return bp.ff.K.key(stripIntConv(v)) }
+func (fr *bframe) depth() int {
+	n := 0
+	for f := fr; f.up != nil; f = f.up {
+		n++
+	}
+	return n
+}
+
+// bgoal accepts a value (seen in frame fr) as a sufficient upper bound.
+type bgoal func(v ssa.Value, fr *bframe) bool
+
+// bprover proves one-sided integer orderings from must-facts, phi edges, the builtins min/max, and
+// through calls to repository helpers: the result of a call is bounded if every value the callee
+// returns is, with the callee's parameters standing for the call's arguments. It never evaluates
+// anything.
+type bprover struct {
+	ff      *FuncFacts
+	rootFr  *bframe
+	descend func(*ssa.Function) bool // which callees may be entered (nil: any function with a body)
+	facts   map[*ssa.Function]*FuncFacts
+	stack   map[string]bool
+}
+
+func (bp *bprover) root() *bframe {
+	if bp.rootFr == nil {
+		bp.rootFr = &bframe{fn: bp.ff.fn, ff: bp.ff}
+	}
+	return bp.rootFr
+}
+
+// enter returns the frame of the static callee of call (nil when it cannot be entered).
+func (bp *bprover) enter(fr *bframe, call ssa.CallInstruction) *bframe {
+	cal := staticCallee(call.Common())
+	if cal == nil || len(cal.Blocks) == 0 || fr.depth() >= 4 {
+		return nil
+	}
+	if bp.descend != nil && !bp.descend(cal) {
+		return nil
+	}
+	for f := fr; f != nil; f = f.up {
+		if f.fn == cal {
+			return nil // recursion
+		}
+	}
+	if bp.facts == nil {
+		bp.facts = map[*ssa.Function]*FuncFacts{}
+	}
+	ff := bp.facts[cal]
+	if ff == nil {
+		ff = computeFacts(cal)
+		bp.facts[cal] = ff
+	}
+	return &bframe{fn: cal, ff: ff, call: call, up: fr}
+}
+
+// callResult splits v into (call, result index) when v is the result of a static call.
+func callResult(v ssa.Value) (*ssa.Call, int) {
+	switch x := v.(type) {
+	case *ssa.Call:
+		if _, isB := x.Call.Value.(*ssa.Builtin); !isB && x.Call.Signature().Results().Len() == 1 {
+			return x, 0
+		}
+	case *ssa.Extract:
+		if c, ok := x.Tuple.(*ssa.Call); ok {
+			return c, x.Index
+		}
+	}
+	return nil, 0
+}
+
+func (bp *bprover) key(v ssa.Value, fr *bframe) string { return fr.ff.K.key(stripIntConv(v)) }
+
+func (bp *bprover) push(tag string, v ssa.Value, fr *bframe) (string, bool) {
+	if bp.stack == nil {
+		bp.stack = map[string]bool{}
+	}
+	k := fmt.Sprintf("%s|%p|%s", tag, fr, bp.key(v, fr))
+	if bp.stack[k] {
+		return k, false
+	}
+	bp.stack[k] = true
+	return k, true
+}
 
 // le proves v <= B for some value B accepted by goal (or, with allowZero, v <= max(0, B)), given
-// the facts fs that hold where v is used.
-func (bp *bprover) le(v ssa.Value, fs factSet, goal func(ssa.Value) bool, allowZero bool, depth int) bool {
-	if depth > 16 {
+// the facts fs that hold where v is used in frame fr.
+func (bp *bprover) le(v ssa.Value, fr *bframe, fs factSet, goal bgoal, allowZero bool, depth int) bool {
+	if depth > 24 {
 		return false
 	}
 	v = stripIntConv(v)
 	if c, ok := constInt(v); ok {
 		return allowZero && c <= 0
 	}
-	if goal(v) {
+	if goal(v, fr) {
 		return true
 	}
-	kv := bp.key(v)
+	sk, fresh := bp.push("le", v, fr)
+	if !fresh {
+		return false
+	}
+	defer delete(bp.stack, sk)
+	kv := bp.key(v, fr)
 	for _, of := range ordFacts(fs) {
-		if bp.key(of.lo) != kv {
+		if bp.key(of.lo, fr) != kv {
 			continue
 		}
 		hi := stripIntConv(of.hi)
-		if goal(hi) {
-			return true
+		if c, ok := constInt(hi); ok {
+			if allowZero && (c <= 0 || (of.strict && c <= 1)) {
+				return true
+			}
+			continue
 		}
-		if c, ok := constInt(hi); ok && allowZero && (c <= 0 || (of.strict && c <= 1)) {
+		if bp.le(hi, fr, fs, goal, allowZero, depth+1) {
 			return true
 		}
 	}
 	switch x := v.(type) {
+	case *ssa.Parameter:
+		if fr.up != nil && x.Parent() == fr.fn {
+			if i := paramIndex(x); i >= 0 && i < len(fr.call.Common().Args) {
+				return bp.le(fr.call.Common().Args[i], fr.up, fr.up.ff.At(fr.call.Block()), goal, allowZero, depth+1)
+			}
+		}
 	case *ssa.Phi:
 		if len(x.Edges) == 0 {
 			return false
 		}
 		for i, e := range x.Edges {
-			if !bp.le(e, bp.ff.FactsAtEdge(x.Block().Preds[i], x.Block()), goal, allowZero, depth+1) {
+			if !bp.le(e, fr, fr.ff.FactsAtEdge(x.Block().Preds[i], x.Block()), goal, allowZero, depth+1) {
 				return false
 			}
 		}
@@ -686,7 +785,7 @@ func (bp *bprover) le(v ssa.Value, fs factSet, goal func(ssa.Value) bool, allowZ
 	case *ssa.Call:
 		if builtinCall(x, "min") != nil {
 			for _, a := range x.Call.Args {
-				if bp.le(a, fs, goal, allowZero, depth+1) {
+				if bp.le(a, fr, fs, goal, allowZero, depth+1) {
 					return true
 				}
 			}
@@ -694,19 +793,33 @@ func (bp *bprover) le(v ssa.Value, fs factSet, goal func(ssa.Value) bool, allowZ
 		}
 		if builtinCall(x, "max") != nil {
 			for _, a := range x.Call.Args {
-				if !bp.le(a, fs, goal, allowZero, depth+1) {
+				if !bp.le(a, fr, fs, goal, allowZero, depth+1) {
 					return false
 				}
 			}
 			return len(x.Call.Args) > 0
 		}
 	}
+	if c, idx := callResult(v); c != nil {
+		if sub := bp.enter(fr, c); sub != nil {
+			rets := returnsOf(sub.fn)
+			if len(rets) == 0 {
+				return false
+			}
+			for _, ret := range rets {
+				if idx >= len(ret.Results) || !bp.le(ret.Results[idx], sub, sub.ff.At(ret.Block()), goal, allowZero, depth+1) {
+					return false
+				}
+			}
+			return true
+		}
+	}
 	return false
 }
 
 // ge0 proves v >= 0.
-func (bp *bprover) ge0(v ssa.Value, fs factSet, depth int) bool {
-	if depth > 16 {
+func (bp *bprover) ge0(v ssa.Value, fr *bframe, fs factSet, depth int) bool {
+	if depth > 24 {
 		return false
 	}
 	v = stripIntConv(v)
@@ -716,22 +829,40 @@ func (bp *bprover) ge0(v ssa.Value, fs factSet, depth int) bool {
 	if builtinCall(v, "len") != nil || builtinCall(v, "cap") != nil {
 		return true
 	}
-	kv := bp.key(v)
+	sk, fresh := bp.push("ge0", v, fr)
+	if !fresh {
+		return false
+	}
+	defer delete(bp.stack, sk)
+	kv := bp.key(v, fr)
 	for _, of := range ordFacts(fs) {
-		if bp.key(of.hi) != kv {
+		if bp.key(of.hi, fr) != kv {
 			continue
 		}
-		if c, ok := constInt(stripIntConv(of.lo)); ok && (c >= 0 || (of.strict && c >= -1)) {
+		lo := stripIntConv(of.lo)
+		if c, ok := constInt(lo); ok {
+			if c >= 0 || (of.strict && c >= -1) {
+				return true
+			}
+			continue
+		}
+		if bp.ge0(lo, fr, fs, depth+1) {
 			return true
 		}
 	}
 	switch x := v.(type) {
+	case *ssa.Parameter:
+		if fr.up != nil && x.Parent() == fr.fn {
+			if i := paramIndex(x); i >= 0 && i < len(fr.call.Common().Args) {
+				return bp.ge0(fr.call.Common().Args[i], fr.up, fr.up.ff.At(fr.call.Block()), depth+1)
+			}
+		}
 	case *ssa.Phi:
 		if len(x.Edges) == 0 {
 			return false
 		}
 		for i, e := range x.Edges {
-			if !bp.ge0(e, bp.ff.FactsAtEdge(x.Block().Preds[i], x.Block()), depth+1) {
+			if !bp.ge0(e, fr, fr.ff.FactsAtEdge(x.Block().Preds[i], x.Block()), depth+1) {
 				return false
 			}
 		}
@@ -739,7 +870,7 @@ func (bp *bprover) ge0(v ssa.Value, fs factSet, depth int) bool {
 	case *ssa.Call:
 		if builtinCall(x, "max") != nil {
 			for _, a := range x.Call.Args {
-				if bp.ge0(a, fs, depth+1) {
+				if bp.ge0(a, fr, fs, depth+1) {
 					return true
 				}
 			}
@@ -747,28 +878,109 @@ func (bp *bprover) ge0(v ssa.Value, fs factSet, depth int) bool {
 		}
 		if builtinCall(x, "min") != nil {
 			for _, a := range x.Call.Args {
-				if !bp.ge0(a, fs, depth+1) {
+				if !bp.ge0(a, fr, fs, depth+1) {
 					return false
 				}
 			}
 			return len(x.Call.Args) > 0
 		}
 	}
-	return false
-}
-
-// knownLE reports whether the facts fs contain x <= y (or x < y).
-func (bp *bprover) knownLE(fs factSet, x, y ssa.Value) bool {
-	kx, ky := bp.key(x), bp.key(y)
-	if kx == ky {
-		return true
-	}
-	for _, of := range ordFacts(fs) {
-		if bp.key(of.lo) == kx && bp.key(of.hi) == ky {
+	if c, idx := callResult(v); c != nil {
+		if sub := bp.enter(fr, c); sub != nil {
+			rets := returnsOf(sub.fn)
+			if len(rets) == 0 {
+				return false
+			}
+			for _, ret := range rets {
+				if idx >= len(ret.Results) || !bp.ge0(ret.Results[idx], sub, sub.ff.At(ret.Block()), depth+1) {
+					return false
+				}
+			}
 			return true
 		}
 	}
 	return false
+}
+
+// knownLE reports whether the facts fs (of frame fr) contain x <= y (or x < y).
+func (bp *bprover) knownLE(fr *bframe, fs factSet, x, y ssa.Value) bool {
+	kx, ky := bp.key(x, fr), bp.key(y, fr)
+	if kx == ky {
+		return true
+	}
+	for _, of := range ordFacts(fs) {
+		if bp.key(of.lo, fr) == kx && bp.key(of.hi, fr) == ky {
+			return true
+		}
+	}
+	return false
+}
+
+// wholeStructParam: v is the whole value (or the address of the private copy) of a struct-typed
+// parameter of its function, never written after its initialisation.
+func wholeStructParam(v ssa.Value) *ssa.Parameter {
+	v = unwrap(v)
+	if p, ok := v.(*ssa.Parameter); ok {
+		return p
+	}
+	var al *ssa.Alloc
+	switch x := v.(type) {
+	case *ssa.UnOp:
+		if x.Op == token.MUL {
+			al, _ = x.X.(*ssa.Alloc)
+		}
+	case *ssa.Alloc:
+		al = x
+	}
+	if al == nil {
+		return nil
+	}
+	var init *ssa.Parameter
+	for _, rf := range refs(al) {
+		switch y := rf.(type) {
+		case *ssa.Store:
+			p, isP := y.Val.(*ssa.Parameter)
+			if y.Addr != ssa.Value(al) || !isP || init != nil {
+				return nil
+			}
+			init = p
+		case *ssa.FieldAddr:
+			for _, r2 := range refs(y) {
+				if st, isSt := r2.(*ssa.Store); isSt && st.Addr == ssa.Value(y) {
+					return nil
+				}
+			}
+		}
+	}
+	return init
+}
+
+// structLeaf names the field F of the ROOT function's struct parameter that v reads, also when v is
+// read in a helper frame from a struct parameter that (through the frames' call sites) is the whole
+// value of the root's parameter. Returns (root parameter, F).
+func (bp *bprover) structLeaf(v ssa.Value, fr *bframe) (*ssa.Parameter, string, bool) {
+	p, f, ok := paramFieldLeaf(v)
+	if !ok {
+		return nil, "", false
+	}
+	for fr.up != nil {
+		if p.Parent() != fr.fn {
+			return nil, "", false
+		}
+		i := paramIndex(p)
+		if i < 0 || i >= len(fr.call.Common().Args) {
+			return nil, "", false
+		}
+		p = wholeStructParam(fr.call.Common().Args[i])
+		if p == nil {
+			return nil, "", false
+		}
+		fr = fr.up
+	}
+	if p.Parent() != fr.fn {
+		return nil, "", false
+	}
+	return p, f, true
 }
 
 // linForm is c + Σ coef[leaf]·leaf.
@@ -826,9 +1038,11 @@ func (f linForm) add(g linForm) linForm {
 
 // linCtx extracts linear forms over leaves named by leaf. A two-edge phi (or builtin call) that is
 // the minimum / maximum of two leaves becomes the leaf "min(a,b)" / "max(a,b)" (names sorted).
+// Parameters of helper frames stand for the call's arguments; the result of a helper with a single
+// return statement stands for the returned expression.
 type linCtx struct {
 	bp   *bprover
-	leaf func(ssa.Value) (string, bool)
+	leaf func(ssa.Value, *bframe) (string, bool)
 	why  string // first reason a form could not be extracted
 }
 
@@ -846,7 +1060,7 @@ func minmaxName(kind, a, b string) string {
 	return kind + "(" + a + "," + b + ")"
 }
 
-func (lc *linCtx) form(v ssa.Value, depth int) (linForm, bool) {
+func (lc *linCtx) form(v ssa.Value, fr *bframe, depth int) (linForm, bool) {
 	if depth > 32 {
 		return lc.fail("expression too deep")
 	}
@@ -854,15 +1068,21 @@ func (lc *linCtx) form(v ssa.Value, depth int) (linForm, bool) {
 	if c, ok := constInt(v); ok {
 		return linForm{c: c, coef: map[string]int64{}}, true
 	}
-	if n, ok := lc.leaf(v); ok {
+	if n, ok := lc.leaf(v, fr); ok {
 		return linForm{coef: map[string]int64{n: 1}}, true
 	}
 	switch x := v.(type) {
+	case *ssa.Parameter:
+		if fr.up != nil && x.Parent() == fr.fn {
+			if i := paramIndex(x); i >= 0 && i < len(fr.call.Common().Args) {
+				return lc.form(fr.call.Common().Args[i], fr.up, depth+1)
+			}
+		}
 	case *ssa.BinOp:
 		switch x.Op {
 		case token.ADD, token.SUB:
-			a, ok1 := lc.form(x.X, depth+1)
-			b, ok2 := lc.form(x.Y, depth+1)
+			a, ok1 := lc.form(x.X, fr, depth+1)
+			b, ok2 := lc.form(x.Y, fr, depth+1)
 			if !ok1 || !ok2 {
 				return linForm{}, false
 			}
@@ -872,32 +1092,32 @@ func (lc *linCtx) form(v ssa.Value, depth int) (linForm, bool) {
 			return a.add(b), true
 		case token.MUL:
 			if c, ok := constInt(x.X); ok {
-				b, ok2 := lc.form(x.Y, depth+1)
+				b, ok2 := lc.form(x.Y, fr, depth+1)
 				return b.scale(c), ok2
 			}
 			if c, ok := constInt(x.Y); ok {
-				a, ok1 := lc.form(x.X, depth+1)
+				a, ok1 := lc.form(x.X, fr, depth+1)
 				return a.scale(c), ok1
 			}
 		}
 		return lc.fail("non-linear operation %s", x.Op)
 	case *ssa.UnOp:
 		if x.Op == token.SUB {
-			a, ok := lc.form(x.X, depth+1)
+			a, ok := lc.form(x.X, fr, depth+1)
 			return a.scale(-1), ok
 		}
 	case *ssa.Phi:
 		if len(x.Edges) == 2 {
 			a, b := stripIntConv(x.Edges[0]), stripIntConv(x.Edges[1])
-			na, oka := lc.leaf(a)
-			nb, okb := lc.leaf(b)
+			na, oka := lc.leafThrough(a, fr)
+			nb, okb := lc.leafThrough(b, fr)
 			if oka && okb {
-				fa := lc.bp.ff.FactsAtEdge(x.Block().Preds[0], x.Block())
-				fb := lc.bp.ff.FactsAtEdge(x.Block().Preds[1], x.Block())
-				if lc.bp.knownLE(fa, a, b) && lc.bp.knownLE(fb, b, a) {
+				fa := fr.ff.FactsAtEdge(x.Block().Preds[0], x.Block())
+				fb := fr.ff.FactsAtEdge(x.Block().Preds[1], x.Block())
+				if lc.bp.knownLE(fr, fa, a, b) && lc.bp.knownLE(fr, fb, b, a) {
 					return linForm{coef: map[string]int64{minmaxName("min", na, nb): 1}}, true
 				}
-				if lc.bp.knownLE(fa, b, a) && lc.bp.knownLE(fb, a, b) {
+				if lc.bp.knownLE(fr, fa, b, a) && lc.bp.knownLE(fr, fb, a, b) {
 					return linForm{coef: map[string]int64{minmaxName("max", na, nb): 1}}, true
 				}
 			}
@@ -906,15 +1126,43 @@ func (lc *linCtx) form(v ssa.Value, depth int) (linForm, bool) {
 	case *ssa.Call:
 		for _, kind := range []string{"min", "max"} {
 			if builtinCall(x, kind) != nil && len(x.Call.Args) == 2 {
-				na, oka := lc.leaf(stripIntConv(x.Call.Args[0]))
-				nb, okb := lc.leaf(stripIntConv(x.Call.Args[1]))
+				na, oka := lc.leafThrough(stripIntConv(x.Call.Args[0]), fr)
+				nb, okb := lc.leafThrough(stripIntConv(x.Call.Args[1]), fr)
 				if oka && okb {
 					return linForm{coef: map[string]int64{minmaxName(kind, na, nb): 1}}, true
 				}
 			}
 		}
 	}
+	if c, idx := callResult(v); c != nil {
+		if sub := lc.bp.enter(fr, c); sub != nil {
+			if rets := returnsOf(sub.fn); len(rets) == 1 && idx < len(rets[0].Results) {
+				return lc.form(rets[0].Results[idx], sub, depth+1)
+			}
+			return lc.fail("helper %s has several return statements", shortFunc(sub.fn))
+		}
+	}
 	return lc.fail("operand %s (%T) is not an input of the formula", v.Name(), v)
+}
+
+// leafThrough names v as a leaf, looking through parameters of helper frames.
+func (lc *linCtx) leafThrough(v ssa.Value, fr *bframe) (string, bool) {
+	for i := 0; i < 6; i++ {
+		v = stripIntConv(v)
+		if n, ok := lc.leaf(v, fr); ok {
+			return n, true
+		}
+		p, isP := v.(*ssa.Parameter)
+		if !isP || fr.up == nil || p.Parent() != fr.fn {
+			return "", false
+		}
+		j := paramIndex(p)
+		if j < 0 || j >= len(fr.call.Common().Args) {
+			return "", false
+		}
+		v, fr = fr.call.Common().Args[j], fr.up
+	}
+	return "", false
 }
 
 // dominatedBy reports whether code <= ref for all values of the leaves, given that the leaves in
@@ -993,6 +1241,10 @@ func paramFieldLeaf(v ssa.Value) (*ssa.Parameter, string, bool) {
 						}
 					}
 				case *ssa.DebugRef:
+				case *ssa.UnOp:
+					if y.Op != token.MUL {
+						return nil, "", false
+					}
 				default:
 					return nil, "", false
 				}
@@ -1327,4 +1579,367 @@ func ipWalk(starts []ssa.Instruction, entry *ssa.Function, reach map[*ssa.Functi
 		}
 	}
 	return nil
+}
+
+// ---------------------------------------------------------------------------------------------
+// loop-carried cells: a counter or list built in a loop is either an SSA register (a phi of the loop
+// header) or a memory cell (a field of a function-local struct that never escapes), possibly in a
+// helper whose struct result the consumer reads ("collect, then act").
+
+// ccell is a loop-carried variable.
+type ccell struct {
+	fn    *ssa.Function
+	phi   *ssa.Phi   // register cell (header phi)
+	alloc *ssa.Alloc // memory cell: field `field` of *alloc
+	field string
+	loop  *loopB
+}
+
+func (c *ccell) String() string {
+	if c.phi != nil {
+		return c.phi.Comment
+	}
+	return c.alloc.Comment + "." + c.field
+}
+
+// localStructCell checks that alloc a is a private struct variable: it is only read/written through
+// its fields, loaded as a whole (e.g. to be returned) or initialised as a whole.
+func localStructCell(a *ssa.Alloc) bool {
+	pt, ok := a.Type().(*types.Pointer)
+	if !ok {
+		return false
+	}
+	if _, ok := pt.Elem().Underlying().(*types.Struct); !ok {
+		return false
+	}
+	for _, rf := range refs(a) {
+		switch x := rf.(type) {
+		case *ssa.FieldAddr:
+			for _, r2 := range refs(x) {
+				switch y := r2.(type) {
+				case *ssa.Store:
+					if y.Addr != ssa.Value(x) {
+						return false
+					}
+				case *ssa.UnOp:
+					if y.Op != token.MUL {
+						return false
+					}
+				case *ssa.DebugRef:
+				default:
+					return false
+				}
+			}
+		case *ssa.UnOp:
+			if x.Op != token.MUL {
+				return false
+			}
+		case *ssa.Store:
+			if x.Addr != ssa.Value(a) {
+				return false
+			}
+		case *ssa.DebugRef:
+		default:
+			return false
+		}
+	}
+	return true
+}
+
+func wholeStores(a *ssa.Alloc) []*ssa.Store {
+	var out []*ssa.Store
+	for _, rf := range refs(a) {
+		if st, ok := rf.(*ssa.Store); ok && st.Addr == ssa.Value(a) {
+			out = append(out, st)
+		}
+	}
+	return out
+}
+
+func fieldStores2(a *ssa.Alloc, field string) []*ssa.Store {
+	var out []*ssa.Store
+	for _, rf := range refs(a) {
+		if fa, ok := rf.(*ssa.FieldAddr); ok && fieldName(fa) == field {
+			for _, r2 := range refs(fa) {
+				if st, ok := r2.(*ssa.Store); ok && st.Addr == ssa.Value(fa) {
+					out = append(out, st)
+				}
+			}
+		}
+	}
+	return out
+}
+
+// cellResolver finds the loop-carried cell behind a value.
+type cellResolver struct {
+	prog  *Prog
+	loops map[*ssa.Function][]*loopB
+}
+
+func (cr *cellResolver) loopsOf(fn *ssa.Function) []*loopB {
+	if cr.loops == nil {
+		cr.loops = map[*ssa.Function][]*loopB{}
+	}
+	if l, ok := cr.loops[fn]; ok {
+		return l
+	}
+	l := findLoops(fn)
+	cr.loops[fn] = l
+	return l
+}
+
+// resolve returns the cell whose final value v is: a header phi of a loop of fn; or field F of a
+// private struct variable updated in a loop, read directly, through a copy of the struct, or through
+// the struct result of a repository helper (every return of which returns that variable).
+func (cr *cellResolver) resolve(v ssa.Value, fn *ssa.Function) (*ccell, string) {
+	v = stripIntConv(v)
+	if ph, ok := v.(*ssa.Phi); ok {
+		for _, l := range cr.loopsOf(fn) {
+			if l.header == ph.Block() {
+				return &ccell{fn: fn, phi: ph, loop: l}, ""
+			}
+		}
+		return nil, "value " + ph.Comment + " merges alternatives outside a loop header"
+	}
+	var base ssa.Value
+	var field string
+	switch x := v.(type) {
+	case *ssa.UnOp:
+		if fa, ok := x.X.(*ssa.FieldAddr); ok && x.Op == token.MUL {
+			base, field = fa.X, fieldName(fa)
+		}
+	case *ssa.Field:
+		base, field = x.X, fieldName(x)
+	}
+	if base == nil {
+		return nil, "value is neither a loop variable nor a field of a struct built in a loop: " + v.String()
+	}
+	return cr.resolveField(base, field, fn, 0)
+}
+
+// resolveField: base is a struct value or the address of a struct variable in fn.
+func (cr *cellResolver) resolveField(base ssa.Value, field string, fn *ssa.Function, depth int) (*ccell, string) {
+	if depth > 6 {
+		return nil, "struct copied too many times"
+	}
+	switch x := base.(type) {
+	case *ssa.Alloc:
+		if !localStructCell(x) {
+			return nil, "the struct variable " + x.Comment + " escapes"
+		}
+		// a variable updated in a loop of this function?
+		var inLoop []*ssa.Store
+		loops := cr.loopsOf(fn)
+		for _, st := range fieldStores2(x, field) {
+			if loopOfBlock(loops, st.Block()) != nil {
+				inLoop = append(inLoop, st)
+			}
+		}
+		if len(inLoop) > 0 {
+			l := loopOfBlock(loops, inLoop[0].Block())
+			for _, st := range inLoop {
+				if loopOfBlock(loops, st.Block()) != l {
+					return nil, "field " + field + " is updated in several loops"
+				}
+			}
+			return &ccell{fn: fn, alloc: x, field: field, loop: l}, ""
+		}
+		// otherwise a copy: exactly one whole-struct assignment and no field assignment
+		ws := wholeStores(x)
+		if len(ws) == 1 && len(fieldStores2(x, field)) == 0 {
+			return cr.resolveField(ws[0].Val, field, fn, depth+1)
+		}
+		return nil, "field " + field + " of " + x.Comment + " is not updated in a loop"
+	case *ssa.UnOp:
+		if x.Op == token.MUL {
+			if a, ok := x.X.(*ssa.Alloc); ok {
+				return cr.resolveField(a, field, fn, depth+1)
+			}
+		}
+	case *ssa.Call, *ssa.Extract:
+		c, idx := callResult(base)
+		if c == nil {
+			break
+		}
+		cal := staticCallee(&c.Call)
+		if cal == nil || len(cal.Blocks) == 0 || !cr.prog.IsRuleSite(cal) {
+			break
+		}
+		var cell *ccell
+		for _, rv := range calleeResults(cal, idx) {
+			c2, why := cr.resolveField(rv, field, cal, depth+1)
+			if c2 == nil {
+				return nil, why
+			}
+			if cell != nil && (cell.alloc != c2.alloc || cell.phi != c2.phi) {
+				return nil, "helper " + shortFunc(cal) + " returns different variables"
+			}
+			cell = c2
+		}
+		if cell != nil {
+			return cell, ""
+		}
+	}
+	return nil, "field " + field + " is read from " + base.String() + ", which is not a private struct built in a loop"
+}
+
+// storesOnPath lists the stores to the memory cell executed on iteration path p, in order.
+func (c *ccell) storesOnPath(p *Path) []*ssa.Store {
+	var out []*ssa.Store
+	for _, b := range p.Blocks {
+		for _, in := range b.Instrs {
+			if st, ok := in.(*ssa.Store); ok {
+				if fa, ok := st.Addr.(*ssa.FieldAddr); ok && fa.X == ssa.Value(c.alloc) && fieldName(fa) == c.field {
+					out = append(out, st)
+				}
+			}
+		}
+	}
+	return out
+}
+
+// previousValue reports whether v is a load of the cell that reads the value left by the previous
+// store (no other store to the cell between the load and st in st's block; the load is in st's block).
+func (c *ccell) previousValue(v ssa.Value, st *ssa.Store) bool {
+	u, ok := stripIntConv(v).(*ssa.UnOp)
+	if !ok || u.Op != token.MUL || u.Block() != st.Block() {
+		return false
+	}
+	fa, ok := u.X.(*ssa.FieldAddr)
+	if !ok || fa.X != ssa.Value(c.alloc) || fieldName(fa) != c.field {
+		return false
+	}
+	between := false
+	for _, in := range st.Block().Instrs {
+		if in == ssa.Instruction(u) {
+			between = true
+			continue
+		}
+		if in == ssa.Instruction(st) {
+			return between
+		}
+		if between {
+			if s2, isSt := in.(*ssa.Store); isSt {
+				if fa2, isFA := s2.Addr.(*ssa.FieldAddr); isFA && fa2.X == ssa.Value(c.alloc) && fieldName(fa2) == c.field {
+					return false
+				}
+				if s2.Addr == ssa.Value(c.alloc) {
+					return false
+				}
+			}
+		}
+	}
+	return false
+}
+
+// delta: by how much the counter changes along iteration path p of its loop.
+func (c *ccell) delta(p *Path) (int64, bool) {
+	if c.phi != nil {
+		return c.loop.deltaOnPath(p, c.phi)
+	}
+	var d int64
+	for _, st := range c.storesOnPath(p) {
+		bo, ok := stripIntConv(st.Val).(*ssa.BinOp)
+		if !ok || (bo.Op != token.ADD && bo.Op != token.SUB) {
+			return 0, false
+		}
+		if k, isC := constInt(bo.Y); isC && c.previousValue(bo.X, st) {
+			if bo.Op == token.ADD {
+				d += k
+			} else {
+				d -= k
+			}
+		} else if k, isC := constInt(bo.X); isC && bo.Op == token.ADD && c.previousValue(bo.Y, st) {
+			d += k
+		} else {
+			return 0, false
+		}
+	}
+	return d, true
+}
+
+// appends: the elements appended to the list along iteration path p.
+func (c *ccell) appends(p *Path) ([]ssa.Value, bool) {
+	if c.phi != nil {
+		return c.loop.appendsOnPath(p, c.phi)
+	}
+	var out []ssa.Value
+	for _, st := range c.storesOnPath(p) {
+		call := builtinCall(st.Val, "append")
+		if call == nil || len(call.Call.Args) != 2 || !c.previousValue(call.Call.Args[0], st) {
+			return nil, false
+		}
+		sl, isSl := call.Call.Args[1].(*ssa.Slice)
+		if !isSl || sl.Low != nil || sl.High != nil {
+			return nil, false
+		}
+		arr, isA := sl.X.(*ssa.Alloc)
+		if !isA || arr.Comment != "varargs" {
+			return nil, false
+		}
+		elems, complete := varargElems(call.Call.Args[1])
+		if !complete {
+			return nil, false
+		}
+		out = append(out, elems...)
+	}
+	return out, true
+}
+
+// startsFrom reports whether the cell's value on entry to its loop satisfies ok (e.g. is the constant
+// zero / an empty slice): register cells by their entry edges; memory cells by the assignments that
+// precede the loop (none = zero value; a whole-struct initialisation from a literal is looked through),
+// and no assignment may happen outside the loop unless it dominates the loop header.
+func (c *ccell) startsFrom(ok func(ssa.Value) bool, zeroOK bool) bool {
+	if c.phi != nil {
+		for _, e := range c.loop.entryEdges(c.phi) {
+			if !ok(e) {
+				return false
+			}
+		}
+		return true
+	}
+	return allocFieldInit(c.alloc, c.field, c.loop, ok, zeroOK, 0)
+}
+
+func allocFieldInit(a *ssa.Alloc, field string, l *loopB, ok func(ssa.Value) bool, zeroOK bool, depth int) bool {
+	if depth > 3 {
+		return false
+	}
+	var last ssa.Instruction
+	lastOK := zeroOK
+	consider := func(in ssa.Instruction, good bool) bool {
+		if l != nil {
+			if l.blocks[in.Block()] {
+				return true // updates inside the loop are judged per path
+			}
+			if !in.Block().Dominates(l.header) {
+				return false
+			}
+		}
+		if last == nil || canExecuteAfter(last, in) {
+			last, lastOK = in, good
+		}
+		return true
+	}
+	for _, st := range fieldStores2(a, field) {
+		if !consider(st, ok(st.Val)) {
+			return false
+		}
+	}
+	for _, st := range wholeStores(a) {
+		good := false
+		switch x := st.Val.(type) {
+		case *ssa.Const:
+			good = zeroOK
+		case *ssa.UnOp:
+			if src, isA := x.X.(*ssa.Alloc); isA && x.Op == token.MUL && localStructCell(src) {
+				good = allocFieldInit(src, field, nil, ok, zeroOK, depth+1)
+			}
+		}
+		if !consider(st, good) {
+			return false
+		}
+	}
+	return lastOK
 }
